@@ -108,6 +108,14 @@ func Pools(quick bool) []PoolDef {
 		paths = append(paths, rsx.GenPaths([]string{"a", "b", "0", "Z"}, 2)...)
 		pools = append(pools, PoolDef{Name: fmt.Sprintf("fan%d", n), Patterns: small, Paths: paths, Hosts: []string{""}, K: 2, Always: always})
 	}
+	// long-paths: request paths around and beyond 64 KiB whose walk has to backtrack after the long segment (offsets
+	// that do not fit 16 bits)
+	var longPaths []string
+	for _, n := range []int{65530, 65535, 65536, 65541, 70000, 131080} {
+		pad := strings.Repeat("s", n)
+		longPaths = append(longPaths, "/"+pad+"/xy", "/"+pad+"/x", "/a/"+pad+"/xy", "/"+pad+"/xz/")
+	}
+	pools = append(pools, PoolDef{Name: "long-paths", Patterns: []string{"/{p0}/x", "/{p0}/{p1}", "/{p0}/xz", "/*{c0}", "/a/{p0}/x", "/a/*{c0}/xy", "/{p0}/xz/", "/*{c0}/"}, Paths: longPaths, Hosts: []string{""}, K: 2})
 	return pools
 }
 
@@ -315,6 +323,9 @@ func runPool(c *mc.Ctx, r *mc.Result, pd PoolDef) {
 							r.DistinctNontrivial++
 						}
 						if class != "" {
+							if len(msg) > 3000 {
+								msg = msg[:1200] + " … " + msg[len(msg)-1200:]
+							}
 							r.Violate("rsx", class, pre+msg, Case{Set: set, Req: rq, Extra: extra, Aborted: pd.AfterAbort})
 						}
 					}
